@@ -43,6 +43,12 @@ inductive Hazard where
   | external (what : String)      -- call through the plugin registry (outside the model)
   deriving DecidableEq, Repr
 
+/-- hazards of the loader's own copying (as opposed to those of validation reading the model) -/
+def Hazard.isCopy : Hazard → Bool
+  | .inputOverread => true
+  | .arrayOverflow _ => true
+  | _ => false
+
 inductive Res (α : Type) where
   | ok (a : α)
   | reject (msg : String)
